@@ -385,6 +385,8 @@ def ir_candidates(v):
         points += [11, 9]
     if v['kind'] == 'stale-store':
         points.append(1)
+    if v['kind'] == 'shared-static-state':
+        points = [0, 1] + points
     if not points:
         points = [0, 1, 11]
     out = []
@@ -573,7 +575,7 @@ HARNESSES = [
                    'LB_clear inlined; reference counts as z3 terms with an unknown number of external holders; no loops occur',
             outside='resolution orders longer than 2 in the VerifyingBase loops; the internal outcomes of a *nested* changed() other than completes / fails after releasing (its two possible effects on the caller\'s heap); allocation failure '
                     '(PyDict_New/PyTuple_New assumed non-NULL); destructors of unknown cached values; the CPython API implementation itself',
-            oracle='monitors M1 (no use of an object whose reference count can be 0), M2 (frame reference balance at every return), M3 (no '
+            oracle='monitors M5 (no write to static storage: the lookups must be re-entrant), M1 (no use of an object whose reference count can be 0), M2 (frame reference balance at every return), M3 (no '
                    'value answered before a havoc-changed() stored into a dictionary reachable from self); findings are replayed on the real build',
             stubs=['C-API contract stubs (listed in the evidence file under per_harness.stubs)', 'havoc = the real LB_clear IR executed at every call that may run Python']),
 ]
